@@ -517,6 +517,26 @@ def scope_programs_2(pid0):
                 dsl = "custom_joiner(::futures::join!) transpose_results(true) " + ", ".join(br + ([h] if h else []))
                 out.append((pid, kind, dsl, "Option<u32>" if h else "Option<(u32, u32)>", ("None::<u32>" if h else "None::<(u32, u32)>") if fail else okexp, [(1, 2)], 4, "scope,scope:async_option_%s_%s" % (hname, "none" if fail else "some"), "", False, ""))
                 pid += 1
+    # (e) an inner invocation that is forwarded, handler included, as raw tokens of a caller's macro_rules, nested in an operand /
+    #     the handler of an outer invocation that has a handler of its own: each handler is called by its own macro
+    for kind in ("join", "try_join", "join_spawn", "try_join_spawn"):
+        tr = kind.startswith("try_")
+        inner = "try_join" if tr else "join"
+        prelude = "macro_rules! __w { ($($t:tt)*) => { %s! { $($t)* } } }" % inner
+        if tr:
+            dsl = "Some(1u32) => |v: u32| __w!(Some(v), Some(10u32), map => |a: u32, b: u32| a + b), Some(2u32), map => |a, b| a * b"
+            rty, exp = "Option<u32>", "Some(22u32)"
+            dsl2 = "Some(1u32), Some(2u32), and_then => |x: u32, y: u32| __w!(Some(x), Some(y + 10), map => |a: u32, b: u32| a + b)"
+            rty2, exp2 = "Option<u32>", "Some(13u32)"
+        else:
+            dsl = "1u32 -> |v: u32| __w!(v, 10u32, then => |a: u32, b: u32| a + b), 2u32, then => |a, b| a * b"
+            rty, exp = "u32", "22u32"
+            dsl2 = "1u32, 2u32, then => |x: u32, y: u32| __w!(x, y + 10, then => |a: u32, b: u32| a + b)"
+            rty2, exp2 = "u32", "13u32"
+        out.append((pid, kind, dsl, rty, exp, [(1, 2)], 4, "scope,nest,nest:forwarded_inner_handler_in_operand", "", False, prelude))
+        pid += 1
+        out.append((pid, kind, dsl2, rty2, exp2, [(1, 2)], 4, "scope,nest,nest:forwarded_inner_handler_in_handler", "", False, prelude))
+        pid += 1
     return out
 
 
